@@ -180,9 +180,9 @@ theorem visitDocument_E (h : CF c f g) (d : Doc) (st : St)
   simp only [Bool.false_eq_true, ↓reduceIte, hl, visitDefs_E h, he]
   omega
 
-/-- the document is not entered further when the chain skips at the document node -/
+/-- the document is not entered further when the chain skips at the document node: the members that entered are left -/
 theorem visitDocument_skip (d : Doc) (st : St) (hs : (enter c (.document d) st).2 = true) :
-    visitDocument c d st = (enter c (.document d) st).1 := by
+    visitDocument c d st = leaveSkipped c (.document d) st (enter c (.document d) st).1 := by
   rw [visitDocument]
   unfold visitNode
   revert hs
@@ -192,5 +192,35 @@ theorem visitDocument_skip (d : Doc) (st : St) (hs : (enter c (.document d) st).
   simp only at hs
   subst hs
   rfl
+
+/-- a single-rule chain whose rule raised `SkipNode`: nobody but `TypeInfoVisitor` is left -/
+theorem leaveSkipped_single (s : SchemaD) (fx : Fixes) (r : Rule) (n : Node) (st0 st1 : St)
+    (h : (enterRule s fx r n st1.ti st0.rs).2 = true) :
+    leaveSkipped ⟨s, fx, [r]⟩ n st0 st1 = { ti := tiLeave n st1.ti, rs := st1.rs } := by
+  unfold leaveSkipped raisedRules
+  revert h
+  generalize enterRule s fx r n st1.ti st0.rs = p
+  obtain ⟨a, b⟩ := p
+  intro h
+  simp only at h
+  subst h
+  simp [raisedRules]
+
+theorem enter_one_rule (s : SchemaD) (fx : Fixes) (r : Rule) (n : Node) (st : St) :
+    enter ⟨s, fx, [r]⟩ n st =
+      ({ ti := tiEnter s n st.ti, rs := (enterRule s fx r n (tiEnter s n st.ti) st.rs).1 },
+       (enterRule s fx r n (tiEnter s n st.ti) st.rs).2) := by
+  simp only [enter, enterRules]
+  generalize enterRule s fx r n (tiEnter s n st.ti) st.rs = p
+  obtain ⟨a, b⟩ := p
+  cases b <;> simp
+
+/-- single-rule chain that skips at `n`: the state after the node is the entered state with `TypeInfoVisitor` left -/
+theorem leaveSkipped_enter_single (s : SchemaD) (fx : Fixes) (r : Rule) (n : Node) (st : St)
+    (h : (enter ⟨s, fx, [r]⟩ n st).2 = true) :
+    leaveSkipped ⟨s, fx, [r]⟩ n st (enter ⟨s, fx, [r]⟩ n st).1 =
+      { ti := tiLeave n (tiEnter s n st.ti), rs := (enterRule s fx r n (tiEnter s n st.ti) st.rs).1 } := by
+  rw [enter_one_rule] at h ⊢
+  exact leaveSkipped_single s fx r n st _ h
 
 end PyGql.Validate
